@@ -455,7 +455,11 @@ def run_batch(prop, tier, verif_seed, n_runs=None, workers=None, budget_s=None, 
                 continue
             seen_new_sigs.add(key)
             desc = r["desc"]
-            confirm = _fails_same(check, desc, v["clause"], known, prop)
+            keep_sig = v.get("sig") if getattr(check, "SHRINK_KEEP_SIG", True) else None
+            confirm = _fails_same(check, desc, v["clause"], known, prop, keep_sig)
+            if confirm is None and keep_sig is not None:
+                keep_sig = None
+                confirm = _fails_same(check, desc, v["clause"], known, prop)
             if confirm is None and r.get("prior"):
                 # state left behind by earlier runs of the same worker: replay the worker's history
                 prior = r["prior"][-300:]
@@ -466,14 +470,13 @@ def run_batch(prop, tier, verif_seed, n_runs=None, workers=None, budget_s=None, 
                 unconfirmed.append(f"violation in run {i} did not reproduce on re-execution: {str(v)[:300]}")
                 continue
             log = {}
-            keep_sig = v.get("sig") if getattr(check, "SHRINK_KEEP_SIG", True) else None
             small = minimise(check, desc, v["clause"], known, prop, shrink_budget if not new_reports else shrink_budget / 4,
                              log, keep_sig)
             final = _fails_same(check, small, v["clause"], known, prop, keep_sig)
             if final is None:
                 small, final = desc, confirm
-            fv = [x for x in final["violations"] if x.get("clause") == v["clause"]
-                  and (keep_sig is None or x.get("sig") == keep_sig) and not known_match(known, prop, x)][0]
+            cands = [x for x in final["violations"] if x.get("clause") == v["clause"] and not known_match(known, prop, x)]
+            fv = ([x for x in cands if keep_sig is None or x.get("sig") == keep_sig] or cands)[0]
             path = os.path.join(REPLAY_DIR, f"{prop}-{verif_seed}-{tier}-{i}-{len(new_reports)}.json")
             with open(path, "w") as f:
                 json.dump({"property": prop, "verif_seed": verif_seed, "tier": tier, "run_index": i,
